@@ -39,7 +39,7 @@ def _run(pid, tier, tags, level_assumptions, conc=False):
     nrand, depth = (300, 30) if tier == "quick" else (3000, 60)
     traces = 0
     for p in files:
-        doc = harness(["fid", "-lts", p, "-random", str(nrand), "-depth", str(depth)], timeout=1500)
+        doc = harness(["fid", "-lts", p, "-random", str(nrand), "-depth", str(depth)], timeout=1500 if tier == "quick" else 3600)
         if doc.get("extra", {}).get("error"):
             raise vlib.Inconclusive("fid harness: " + doc["extra"]["error"])
         doc["violations"] = [v for v in doc.get("violations") or [] if v.get("tag") in tags]
